@@ -2382,7 +2382,7 @@ IW_INLINE struct jbl_node* _jbl_node_find2(struct jbl_node *node, struct jbl_ptr
 }
 
 static struct jbl_node* _jbl_node_detach(struct jbl_node *target, struct jbl_ptr *path) {
-  if (!path) {
+  if (!path || path->cnt < 1) {
     return 0;
   }
   struct jbl_node *parent = (path->cnt > 1) ? _jbl_node_find(target, path, 0, path->cnt - 1) : target;
@@ -2542,7 +2542,10 @@ static iwrc _jbl_target_apply_patch(struct jbl_node *target, const struct jbl_pa
   jbp_patch_t op = ex->p->op;
   struct jbl_ptr *path = ex->path;
   struct jbl_node *value = ex->p->vnode;
-  bool oproot = ex->path->cnt == 1 && *ex->path->n[0] == '\0';
+  bool oproot = ex->path->cnt == 0 || (ex->path->cnt == 1 && *ex->path->n[0] == '\0');
+  if (op == JBP_SWAP && ex->from && ex->from->cnt == 0) { // the root cannot change places with a part of itself
+    return JBL_ERROR_PATCH_INVALID;
+  }
 
   if (op == JBP_TEST) {
     iwrc rc = 0;
